@@ -20,8 +20,10 @@ def name(comps):
     return ".".join("".join(chr(c) for c in comp) for comp in comps)
 
 
-def observe(bs, pkg, ref, decl):
-    bind = {name(n): celx.to_cel(celx.dec(v)) for n, v in bs}
+def observe(bs, pkg, ref, decl, order=0):
+    # the order in which the caller lists the bindings is no part of their meaning: as generated, reversed, longest name first
+    seq = list(bs) if order == 0 else list(reversed(bs)) if order == 1 else sorted(bs, key=lambda nv: -len(nv[0]))
+    bind = {name(n): celx.to_cel(celx.dec(v)) for n, v in seq}
     ann = None
     if decl:
         ann = {k: (ct.IntType if isinstance(v, ct.IntType) else ct.MapType) for k, v in bind.items()}
@@ -40,9 +42,10 @@ def describe(bs, pkg, ref):
 
 
 def _replay(item):
-    bs, pkg, ref, exp_w, decl = item
+    bs, pkg, ref, exp_w, j = item
+    decl, order = j % 3, (j // 3) % 3
     exp = celx.dec(exp_w)
-    text, obs = observe(bs, pkg, ref, decl)
+    text, obs = observe(bs, pkg, ref, decl, order)
     bad = []
     for r, got in obs.items():
         if not evalx.agrees(exp, got):
@@ -57,6 +60,22 @@ def _replay(item):
     return len(obs), bad
 
 
+def _replay_declared(item):
+    prog, env_pairs, exp_w = item
+    exp = celx.dec(exp_w)
+    text = celx.render_ast(prog)
+    bind = {n: celx.to_cel(celx.dec(v)) for n, v in env_pairs}
+    ann = {n: ct.IntType for n in bind}
+    bad = []
+    for r in ("I", "C"):
+        got = celx.outcome_abs(celx.run(text, bind, r, annotations=ann, cache=False))
+        if not evalx.agrees(exp, got):
+            bad.append(("declared identifier bound to %s: exp=%s got=%s runner=%s" % ("null" if any(v is None for v in bind.values()) else "a value", evalx.kind_of(exp),
+                                                                                      evalx.kind_of(got) if got["t"] != exp["t"] else "other value", r),
+                        {"cel": text, "bindings": env_pairs, "declared": "int", "runner": r, "expected": exp_w, "observed": got}))
+    return 2, bad
+
+
 def run(ctx: Ctx) -> int:
     q = ctx.quick
     r = ctx.tlc("MC_C12", 'SPECIFICATION Spec\nCONSTANT MODE = "names"\n' + INV, dump=True, name="binding configurations x packages x references")
@@ -64,7 +83,7 @@ def run(ctx: Ctx) -> int:
     if q:
         states = states[::3]
         ctx.cov["replay_note"] = "quick: every third configuration replayed (all model-checked)"
-    items = [(s["bs"], s["pkg"], s["ref"], s["exp"], j % 3) for j, s in enumerate(states)]
+    items = [(s["bs"], s["pkg"], s["ref"], s["exp"], j) for j, s in enumerate(states)]
     nobs = 0
     for n, bad in pmap(_replay, items):
         nobs += n
@@ -85,6 +104,13 @@ def run(ctx: Ctx) -> int:
     r = ctx.tlc("MC_C12", 'SPECIFICATION Spec\nCONSTANT MODE = "idents"\nINVARIANT SpellingIrrelevant\nCHECK_DEADLOCK FALSE\n', dump=True, name="identifier spellings")
     istates = [s for s in read_dump(r.dump) if not (s["prog"]["k"] == "lit")]
     evalx.replay_states(ctx, [(s["prog"], [(b[0], b[1]) for b in s["bs"]], s["exp"]) for s in istates])
+    # ... and with the identifier declared (as int): a binding, also a null one, takes precedence over the declaration
+    nobs = 0
+    for n, bad in pmap(_replay_declared, [(s["prog"], [(b[0], b[1]) for b in s["bs"]], s["exp"]) for s in istates if s["bs"]]):
+        nobs += n
+        for sig, case in bad:
+            ctx.disagree(sig, case)
+    ctx.cov["evaluations"] += nobs
     ctx.cov["replayed_identifier_programs"] = len(istates)
     ctx.sample({"cel": celx.render_ast(mstates[0]["prog"]), "outer": {"x": 100, "y": 200}, "expected": mstates[0]["exp"]})
     # code -> spec: random macro nestings with random variable names, judged by Trace_Eval (Eval models scoping with an environment stack)
